@@ -30,6 +30,11 @@ pub enum VarError {
 /// 1. Value is not in the environment
 /// 2. Value exists but is not utf-8
 pub fn var_unix(key: &UnixStr) -> Result<&'static UnixStr, VarError> {
+    // A variable's name ends at the first '=', a key containing one names nothing
+    // (`A=` is not the name of the entry `A==y`)
+    if key.as_slice().contains(&b'=') {
+        return Err(VarError::Missing);
+    }
     let mut env_ptr = unsafe { ENV.env_p };
     while !env_ptr.is_null() {
         unsafe {
@@ -61,6 +66,11 @@ pub fn var_unix(key: &UnixStr) -> Result<&'static UnixStr, VarError> {
 /// 1. Value is not in the environment
 /// 2. Value exists but is not utf-8
 pub fn var(key: &str) -> Result<&'static str, VarError> {
+    // A variable's name ends at the first '=', a key containing one names nothing
+    // (`A=` is not the name of the entry `A==y`)
+    if key.as_bytes().contains(&b'=') {
+        return Err(VarError::Missing);
+    }
     let mut env_ptr = unsafe { ENV.env_p };
     while !env_ptr.is_null() {
         unsafe {
